@@ -1827,7 +1827,7 @@ func stripToCall(v ssa.Value) *ssa.Call {
 // UTF-8 are continuation bytes of other characters; and a rune that was classified has to be consumed whole.
 func ruleC14R9(w *World, r *Report) {
 	const rule = "C14/R9"
-	r.rule(rule, "every rune handed to a unicode.* predicate in the core packages is the first result of utf8.DecodeRune*/DecodeLastRune* or a range-over-string value (never a converted byte); in *Lexer methods, the cursor advances that follow such a predicate advance by exactly the size returned by the same decode call", 3)
+	r.rule(rule, "every rune handed to a unicode.* predicate in the core packages is the first result of utf8.DecodeRune*/DecodeLastRune* or a range-over-string value (never a converted byte); in *Lexer methods, the cursor advances that follow such a predicate advance by exactly the size returned by the same decode call", 1)
 	isDecode := func(v ssa.Value) *ssa.Call {
 		c, ok := v.(*ssa.Call)
 		if !ok {
